@@ -532,7 +532,7 @@ class RawAlgorithmsMixIn:
         # print 'xbar_data=',xbar_data
         # print 'ybar_data=',ybar_data
 
-        if type(r) == int:
+        if type(r) == int and r >= 0:
 
             if r > 0:
 
@@ -543,6 +543,7 @@ class RawAlgorithmsMixIn:
                 xbar_data += tmp
 
         else:
+            # real exponents and negative integers: xbar += ybar * r * y/x
 
             tmp = numpy.zeros_like(xbar_data)
 
